@@ -10,6 +10,6 @@ CONSTANTS
   MaxNodes = 110
   MaxOps = 12
   MaxTx = 100000
-  Acts = {"new", "assign", "member", "container", "mutate", "storage", "ref"}
+  Acts = {"new", "assign", "member", "container", "mutate", "storage", "ref", "temp"}
   SimDepth = 120
 INVARIANTS SimEmit
